@@ -86,7 +86,7 @@ CHECKS = {
          "15 program states (clean, warnings only by three lints, one error of each phase incl. three I/O errors and a cross-file redefinition, in any of 1..4 source / reference files) x 0..3 generators (one optionally failing) x --dry-run x format x -A lists x -O: generators run and files appear iff no error and no --dry-run; warnings never prevent generation; exit status != 0 iff an error diagnostic was emitted.",
          "trusts the fake generator's invocation log and the parsing of emitted diagnostics (JSON lines / 'error [' headers)",
          "DESIGN.md section 5, C07"),
- "C13": ("bounded-exhaustive template matrix (lint x site x placement x argument x decoy) with a reference predicate; metamorphic with/without pairs; binary subset",
+ "C13": ("bounded-exhaustive template matrix (lint x site x placement x argument x decoy) with a reference predicate; proptest random programs with many lints and random suppressions judged by a location-based reference predicate; metamorphic with/without pairs; binary subset",
          "exploration",
          "All 6048 cells of lint kind x 12 sites x 9 placements x 7 argument shapes (incl. separate attributes and a decoy allow closer to the site) are compiled in-process: the statement's predicate decides the expected level; the with/without pair must differ in nothing but that level and the added attribute (diagnostics, AST); 8 error kinds stay errors under allow(All) everywhere and -A All; through the binary: case-insensitive -A spellings, DuplicateFile, exit status, identical generator request. Complete over the matrix.",
          "trusts the reference predicate; for a single unnamed return value the element concerned is the operation",
@@ -112,7 +112,7 @@ CHECKS = {
 FUZZED = {
  "C01": "text, unicode, mutations, valid", "C02": "programs", "C03": "alias-chains, programs", "C04": "injected",
  "C05": "random", "C06": "files, multifile", "C09": "programs, diagnostics, comment-defects, snippets", "C10": "values",
- "C11": "random, mutate, duplicate-keys", "C12": "out-random, in-random", "C15": "in-process", "C16": "comments, defects",
+ "C11": "random, mutate, duplicate-keys", "C12": "out-random, in-random", "C13": "random", "C15": "in-process", "C16": "comments, defects",
  "C17": "tree", "C19": "roundtrip", "C20": "programs",
 }
 
